@@ -2,12 +2,18 @@
 import RtcModel.Jsep
 namespace RtcModel.Jsep
 
-/-- everything of a connection except the mid counter -/
-def Pc.sameButMid (a b : Pc) : Prop :=
-  a.mode = b.mode ∧ a.sig = b.sig ∧ a.peerClosed = b.peerClosed ∧ a.loc = b.loc ∧ a.rem = b.rem ∧
-  a.trxs = b.trxs ∧ a.dtlsStarted = b.dtlsStarted ∧ a.remoteFp = b.remoteFp ∧ a.bindFails = b.bindFails
+/-- the named environment hypothesis: UDP socket binds succeed — or the connection is in WebRTC mode, where
+no socket is bound inside a signaling call (`bindFails` is never read) -/
+def EnvOk (pc : Pc) : Prop := pc.bindFails = false ∨ pc.mode = .webrtc
 
-theorem Pc.sameButMid_refl (a : Pc) : a.sameButMid a := ⟨rfl, rfl, rfl, rfl, rfl, rfl, rfl, rfl, rfl⟩
+instance (pc : Pc) : Decidable (EnvOk pc) := by unfold EnvOk; infer_instance
+
+theorem EnvOk.srtp {pc : Pc} (h : EnvOk pc) : (pc.bindFails && decide (pc.mode = .srtp)) = false := by
+  rcases h with h | h <;> simp [h]
+theorem EnvOk.rtp {pc : Pc} (h : EnvOk pc) : (pc.bindFails && decide (pc.mode = .rtp)) = false := by
+  rcases h with h | h <;> simp [h]
+theorem EnvOk.inline {pc : Pc} (h : EnvOk pc) : (pc.bindFails && pc.bindsInline) = false := by
+  rcases h with h | h <;> simp [h, Pc.bindsInline]
 
 /-! ### set_local -/
 
@@ -30,6 +36,8 @@ variable (pc : Pc) (d : Desc)
 @[simp] theorem localExtract_remoteFp : (localExtract pc d).remoteFp = pc.remoteFp := by
   unfold localExtract; split <;> (try split) <;> rfl
 @[simp] theorem localExtract_bindFails : (localExtract pc d).bindFails = pc.bindFails := by
+  unfold localExtract; split <;> (try split) <;> rfl
+@[simp] theorem localExtract_dtlsRole : (localExtract pc d).dtlsRole = pc.dtlsRole := by
   unfold localExtract; split <;> (try split) <;> rfl
 /-- the extraction block is the identity unless the call is an offer applied in `Stable` -/
 theorem localExtract_id (h : ¬ (d.ty = .offer ∧ pc.sig = .stable)) : localExtract pc d = pc := by
@@ -84,6 +92,7 @@ variable (pc : Pc) (d : Desc)
 @[simp] theorem handleReinvite_dtlsStarted : (handleReinvite pc d).dtlsStarted = pc.dtlsStarted := rfl
 @[simp] theorem handleReinvite_remoteFp : (handleReinvite pc d).remoteFp = pc.remoteFp := rfl
 @[simp] theorem handleReinvite_bindFails : (handleReinvite pc d).bindFails = pc.bindFails := rfl
+@[simp] theorem handleReinvite_dtlsRole : (handleReinvite pc d).dtlsRole = pc.dtlsRole := rfl
 end handleReinvite
 
 /-- The re-INVITE block either fails without touching anything, does nothing, or applies the
@@ -110,117 +119,165 @@ variable (pc : Pc) (d : Desc)
 @[simp] theorem applyRemote_dtlsStarted : (applyRemote pc d).dtlsStarted = pc.dtlsStarted := by unfold applyRemote; split <;> rfl
 @[simp] theorem applyRemote_remoteFp : (applyRemote pc d).remoteFp = pc.remoteFp := by unfold applyRemote; split <;> rfl
 @[simp] theorem applyRemote_bindFails : (applyRemote pc d).bindFails = pc.bindFails := by unfold applyRemote; split <;> rfl
+@[simp] theorem applyRemote_dtlsRole : (applyRemote pc d).dtlsRole = pc.dtlsRole := by unfold applyRemote; split <;> rfl
 end applyRemote
 
-/-- with a working socket layer the tail always succeeds -/
-theorem remoteTail_envok (pc4 : Pc) (d : Desc) (hb : pc4.bindFails = false) :
-    remoteTail pc4 d = ({ applyRemote pc4 d with rem := some d }, .ok) := by
-  simp [remoteTail, hb]
+/-! the tail of `set_remote_description` -/
 
-/-- when the tail succeeds it has applied and stored the description -/
-theorem remoteTail_ok (pc4 : Pc) (d : Desc) (h : (remoteTail pc4 d).2 = .ok) :
-    remoteTail pc4 d = ({ applyRemote pc4 d with rem := some d }, .ok) := by
-  unfold remoteTail at h ⊢
-  split at h
-  · simp at h
-  · rename_i h1
-    rw [if_neg h1]
-    dsimp only at h ⊢
-    split at h
-    · simp at h
-    · rename_i h2
-      rw [if_neg h2]
+/-- with a working socket layer the tail always succeeds and only then moves the state -/
+theorem remoteTail_envok (pc4 : Pc) (d : Desc) (s' : SigState) (hb : EnvOk pc4) :
+    remoteTail pc4 d s' = ({ applyRemote pc4 d with rem := some d, sig := s' }, .ok) := by
+  rcases hb with hb | hb <;> simp [remoteTail, hb]
+
+theorem remoteTail_cases (pc4 : Pc) (d : Desc) (s' : SigState) :
+    remoteTail pc4 d s' = (pc4, .err .internal) ∨
+    remoteTail pc4 d s' = ({ applyRemote pc4 d with rem := some d }, .err .internal) ∨
+    remoteTail pc4 d s' = ({ applyRemote pc4 d with rem := some d, sig := s' }, .ok) := by
+  unfold remoteTail
+  split
+  · exact Or.inl rfl
+  · dsimp only
+    split
+    · exact Or.inr (Or.inl rfl)
+    · exact Or.inr (Or.inr rfl)
 
 theorem fpChanged_congr (a b : Pc) (fp : Option Nat) (h1 : a.dtlsStarted = b.dtlsStarted)
     (h2 : a.remoteFp = b.remoteFp) : fpChanged a fp = fpChanged b fp := by
   simp [fpChanged, h1, h2]
 
-theorem setRemote_err (pc : Pc) (d : Desc) (e : Err) (hb : pc.bindFails = false)
-    (h : (setRemote pc d).2 = .err e) :
-    ((setRemote pc d).1).sameButMid pc := by
-  unfold setRemote at h ⊢
-  cases hv : validateType d.ty with
-  | some e' => simp only [hv] at h ⊢; exact Pc.sameButMid_refl pc
-  | none =>
-    simp only [hv] at h ⊢
-    cases hf : remoteFingerprint pc.mode d.fp with
-    | error e' => simp only [hf] at h ⊢; exact Pc.sameButMid_refl pc
-    | ok fp =>
-      simp only [hf] at h ⊢
-      by_cases hc : fpChanged pc fp = true
-      · simp only [hc, if_true] at h ⊢; exact Pc.sameButMid_refl pc
-      · simp only [hc] at h ⊢
-        rcases reinvitePhase_cases pc d (mediaChanged pc d) with ⟨e', hr⟩ | hr | ⟨hr, s', hs'⟩
-        · simp only [hr] at h ⊢; exact Pc.sameButMid_refl pc
-        · simp only [hr] at h ⊢
-          cases ht : remoteTransition pc.sig d.ty with
-          | error e' => simp only [ht] at h ⊢; exact ⟨rfl, rfl, rfl, rfl, rfl, rfl, rfl, rfl, rfl⟩
-          | ok s2 =>
-            simp only [ht] at h ⊢
-            by_cases hu : (pc.rem.isSome && !mediaChanged pc d) = true
-            · simp [hu] at h
-            · simp only [hu] at h
-              have hc2 : (pc.dtlsStarted && pc.remoteFp != fp) = false := by simpa [fpChanged] using hc
-              simp only [fpChanged, hc2, Bool.false_eq_true, if_false] at h
-              rw [remoteTail_envok] at h
-              · simp at h
-              · exact hb
-        · simp only [hr, handleReinvite_sig, hs'] at h ⊢
-          by_cases hu : (pc.rem.isSome && !mediaChanged pc d) = true
-          · simp [hu] at h
-          · simp only [hu] at h
-            have hc2 : (pc.dtlsStarted && pc.remoteFp != fp) = false := by simpa [fpChanged] using hc
-            simp only [fpChanged, handleReinvite_dtlsStarted, handleReinvite_remoteFp, hc2, Bool.false_eq_true, if_false] at h
-            rw [remoteTail_envok] at h
-            · simp at h
-            · exact hb
+/-- what a connection looks like from outside the transceiver / mid-counter / fingerprint / role part -/
+def Pc.frame (r pc : Pc) : Prop :=
+  r.loc = pc.loc ∧ r.peerClosed = pc.peerClosed ∧ r.mode = pc.mode ∧ r.dtlsStarted = pc.dtlsStarted ∧
+  r.bindFails = pc.bindFails
 
+/-- the three ways `set_remote_description` can end, relative to the connection `pc1` it started from -/
+def Shape (pc1 : Pc) (d : Desc) (R : Pc × Res) : Prop :=
+  (∃ e, R = (pc1, .err e) ∧ ∀ s', remoteTransition pc1.sig d.ty ≠ .ok s') ∨
+  (∃ s' r, remoteTransition pc1.sig d.ty = .ok s' ∧ R = (r, .ok) ∧ r.sig = s' ∧ r.rem = some d ∧ r.frame pc1) ∨
+  (∃ r, R = (r, .err .internal) ∧ ¬ EnvOk pc1 ∧ r.sig = pc1.sig ∧ r.frame pc1)
+
+theorem tail_shape (pc1 X : Pc) (d : Desc) (s2 : SigState) (h1 : X.sig = pc1.sig) (h2 : X.frame pc1)
+    (ht : remoteTransition pc1.sig d.ty = .ok s2) : Shape pc1 d (remoteTail X d s2) := by
+  have henv : EnvOk pc1 → EnvOk X := by
+    intro h; unfold EnvOk at h ⊢; rw [h2.2.2.2.2, h2.2.2.1]; exact h
+  obtain ⟨f1, f2, f3, f4, f5⟩ := h2
+  rcases remoteTail_cases X d s2 with hr | hr | hr
+  · right; right
+    refine ⟨_, hr, ?_, h1, f1, f2, f3, f4, f5⟩
+    intro he; rw [remoteTail_envok _ _ _ (henv he)] at hr; simp at hr
+  · right; right
+    refine ⟨_, hr, ?_, by simpa using h1, by simpa [Pc.frame] using ⟨f1, f2, f3, f4, f5⟩⟩
+    intro he; rw [remoteTail_envok _ _ _ (henv he)] at hr; simp at hr
+  · right; left
+    exact ⟨s2, _, ht, hr, rfl, rfl, by simpa [Pc.frame] using ⟨f1, f2, f3, f4, f5⟩⟩
+
+/-- the shapes of `set_remote_description` from the state check on -/
+theorem remoteAfterReinvite_shape (pc1 : Pc) (d : Desc) (fp : Option Nat) (u : Bool) (hfc : fpChanged pc1 fp = false) :
+    Shape pc1 d (remoteAfterReinvite pc1 d fp u) := by
+  unfold remoteAfterReinvite
+  cases ht : remoteTransition pc1.sig d.ty with
+  | error e' => left; exact ⟨e', rfl, fun s' h => by rw [ht] at h; cases h⟩
+  | ok s2 =>
+    dsimp only
+    cases u with
+    | true =>
+      right; left
+      exact ⟨s2, _, ht, rfl, rfl, rfl, rfl, rfl, rfl, rfl, rfl⟩
+    | false =>
+      have hc2 : (pc1.dtlsStarted && pc1.remoteFp != fp) = false := by simpa [fpChanged] using hfc
+      simp only [Bool.false_eq_true, if_false, fpChanged, hc2]
+      exact tail_shape pc1 _ d s2 rfl ⟨rfl, rfl, rfl, rfl, rfl⟩ ht
+
+/-- the shapes `setRemote` can return (every environment): an early rejection with the connection
+untouched; success with the table's transition; or the socket layer's error out of the tail, with the
+signaling state untouched. -/
+theorem setRemote_shape (pc : Pc) (d : Desc) :
+    (∃ e, setRemote pc d = (pc, .err e)) ∨
+    (∃ s' r, remoteTransition pc.sig d.ty = .ok s' ∧ setRemote pc d = (r, .ok) ∧ r.sig = s' ∧ r.rem = some d ∧
+        r.frame pc) ∨
+    (∃ r, setRemote pc d = (r, .err .internal) ∧ ¬ EnvOk pc ∧ r.sig = pc.sig ∧ r.frame pc) := by
+  unfold setRemote
+  cases hv : validateType d.ty with
+  | some e' => exact Or.inl ⟨e', rfl⟩
+  | none =>
+    simp only
+    cases hf : remoteFingerprint pc.mode d.fp with
+    | error e' => exact Or.inl ⟨e', rfl⟩
+    | ok fp =>
+      simp only
+      by_cases hc : fpChanged pc fp = true
+      · simp only [hc, if_true]; exact Or.inl ⟨_, rfl⟩
+      · simp only [hc]
+        have hc' : fpChanged pc fp = false := by simpa using hc
+        rcases reinvitePhase_cases pc d (mediaChanged pc d) with ⟨e', hr⟩ | hr | ⟨hr, s', hs'⟩
+        · rw [hr]; exact Or.inl ⟨e', rfl⟩
+        · rw [hr]
+          dsimp only
+          rcases remoteAfterReinvite_shape pc d fp (pc.rem.isSome && !mediaChanged pc d) hc'
+            with ⟨e', h, _⟩ | ⟨s2, r, ht, h, h1, h2, h3⟩ | ⟨r, h, hn, h1, h3⟩
+          · exact Or.inl ⟨e', h⟩
+          · exact Or.inr (Or.inl ⟨s2, r, ht, h, h1, h2, h3⟩)
+          · exact Or.inr (Or.inr ⟨r, h, hn, h1, h3⟩)
+        · rw [hr]
+          dsimp only
+          have hc'' : fpChanged (handleReinvite pc d) fp = false := by
+            rw [← hc']; exact fpChanged_congr _ _ fp rfl rfl
+          rcases remoteAfterReinvite_shape (handleReinvite pc d) d fp (pc.rem.isSome && !mediaChanged pc d) hc''
+            with ⟨e', _, hno⟩ | ⟨s2, r, ht, h, h1, h2, h3⟩ | ⟨r, h, hn, h1, h3⟩
+          · exact absurd hs' (hno s')
+          · exact Or.inr (Or.inl ⟨s2, r, ht, h, h1, h2, h3⟩)
+          · exact Or.inr (Or.inr ⟨r, h, hn, h1, h3⟩)
+
+/-- a rejected `set_remote_description` leaves the signaling state alone — in every environment -/
+theorem setRemote_err_sig (pc : Pc) (d : Desc) (e : Err) (h : (setRemote pc d).2 = .err e) :
+    (setRemote pc d).1.sig = pc.sig := by
+  rcases setRemote_shape pc d with ⟨e', h'⟩ | ⟨s', r, _, h', _⟩ | ⟨r, h', _, hs, _⟩
+  · rw [h']
+  · rw [h'] at h; cases h
+  · rw [h']; exact hs
+
+/-- with a working socket layer a rejected `set_remote_description` returns the connection unchanged -/
+theorem setRemote_err (pc : Pc) (d : Desc) (e : Err) (hb : EnvOk pc) (h : (setRemote pc d).2 = .err e) :
+    (setRemote pc d).1 = pc := by
+  rcases setRemote_shape pc d with ⟨e', h'⟩ | ⟨s', r, _, h', _⟩ | ⟨r, h', hn, _⟩
+  · rw [h']
+  · rw [h'] at h; cases h
+  · exact absurd hb hn
+
+/-- in every environment an error other than the socket layer's returns the connection unchanged -/
+theorem setRemote_err_general (pc : Pc) (d : Desc) (e : Err) (h : (setRemote pc d).2 = .err e) :
+    (setRemote pc d).1 = pc ∨ e = .internal := by
+  rcases setRemote_shape pc d with ⟨e', h'⟩ | ⟨s', r, _, h', _⟩ | ⟨r, h', _⟩
+  · left; rw [h']
+  · rw [h'] at h; cases h
+  · right; rw [h'] at h; injection h with h; exact h.symm
 
 /-- a successful `set_remote_description`: the state check of the table passed, the description is
-stored, and besides that only transceivers, mid counter and cached fingerprint may have changed -/
+stored, and besides that only transceivers, mid counter, cached fingerprint and role may have changed -/
 theorem setRemote_ok (pc : Pc) (d : Desc) (h : (setRemote pc d).2 = .ok) :
     ∃ s', remoteTransition pc.sig d.ty = .ok s' ∧ (setRemote pc d).1.sig = s' ∧
       (setRemote pc d).1.rem = some d ∧ (setRemote pc d).1.loc = pc.loc ∧
       (setRemote pc d).1.peerClosed = pc.peerClosed ∧ (setRemote pc d).1.mode = pc.mode ∧
       (setRemote pc d).1.dtlsStarted = pc.dtlsStarted ∧ (setRemote pc d).1.bindFails = pc.bindFails := by
-  unfold setRemote at h ⊢
-  cases hv : validateType d.ty with
-  | some e' => simp [hv] at h
-  | none =>
-    simp only [hv] at h ⊢
-    cases hf : remoteFingerprint pc.mode d.fp with
-    | error e' => simp [hf] at h
-    | ok fp =>
-      simp only [hf] at h ⊢
-      by_cases hc : fpChanged pc fp = true
-      · simp [hc] at h
-      · simp only [hc] at h ⊢
-        rcases reinvitePhase_cases pc d (mediaChanged pc d) with ⟨e', hr⟩ | hr | ⟨hr, s', hs'⟩
-        · simp [hr] at h
-        · simp only [hr] at h ⊢
-          cases ht : remoteTransition pc.sig d.ty with
-          | error e' => simp [ht] at h
-          | ok s2 =>
-            refine ⟨s2, rfl, ?_⟩
-            simp only [ht] at h ⊢
-            by_cases hu : (pc.rem.isSome && !mediaChanged pc d) = true
-            · simp [hu]
-            · have hc2 : (pc.dtlsStarted && pc.remoteFp != fp) = false := by simpa [fpChanged] using hc
-              simp only [hu, fpChanged, hc2, Bool.false_eq_true, if_false] at h ⊢
-              rw [remoteTail_ok _ _ h]
-              simp
-        · refine ⟨s', hs', ?_⟩
-          simp only [hr, handleReinvite_sig, hs'] at h ⊢
-          by_cases hu : (pc.rem.isSome && !mediaChanged pc d) = true
-          · simp [hu]
-          · have hc2 : (pc.dtlsStarted && pc.remoteFp != fp) = false := by simpa [fpChanged] using hc
-            simp only [hu, fpChanged, handleReinvite_dtlsStarted, handleReinvite_remoteFp, hc2, Bool.false_eq_true, if_false] at h ⊢
-            rw [remoteTail_ok _ _ h]
-            simp
+  rcases setRemote_shape pc d with ⟨e', h'⟩ | ⟨s', r, ht, h', h1, h2, h3, h4, h5, h6, h7⟩ | ⟨r, h', _⟩
+  · rw [h'] at h; cases h
+  · rw [h']; exact ⟨s', ht, h1, h2, h3, h4, h5, h6, h7⟩
+  · rw [h'] at h; cases h
+
+/-- general frame of `set_remote_description` (any environment, any outcome) -/
+theorem setRemote_frame (pc : Pc) (d : Desc) :
+    (setRemote pc d).1.peerClosed = pc.peerClosed ∧ (setRemote pc d).1.mode = pc.mode ∧
+    (setRemote pc d).1.loc = pc.loc ∧ (setRemote pc d).1.dtlsStarted = pc.dtlsStarted ∧
+    (setRemote pc d).1.bindFails = pc.bindFails ∧
+    ((setRemote pc d).1.sig = pc.sig ∨ remoteTransition pc.sig d.ty = .ok (setRemote pc d).1.sig) := by
+  rcases setRemote_shape pc d with ⟨e', h'⟩ | ⟨s', r, ht, h', h1, _, h3, h4, h5, h6, h7⟩ | ⟨r, h', _, h1, h3, h4, h5, h6, h7⟩
+  · rw [h']; exact ⟨rfl, rfl, rfl, rfl, rfl, Or.inl rfl⟩
+  · rw [h']; exact ⟨h4, h5, h3, h6, h7, Or.inr (h1 ▸ ht)⟩
+  · rw [h']; exact ⟨h4, h5, h3, h6, h7, Or.inl h1⟩
 
 /-! ### create_offer / create_answer -/
 
-theorem createOffer_cases (pc : Pc) (hb : pc.bindFails = false) :
+theorem createOffer_cases (pc : Pc) (hb : EnvOk pc) :
     (∃ e, createOffer pc = (pc, .err e) ∧ (pc.sig ≠ .stable ∨ pc.trxs = [])) ∨
     (pc.sig = .stable ∧ (createOffer pc).2 = .ok ∧
       createOffer pc = ({ pc with trxs := (createOffer pc).1.trxs, nextMid := (createOffer pc).1.nextMid }, .ok)) := by
@@ -229,9 +286,9 @@ theorem createOffer_cases (pc : Pc) (hb : pc.bindFails = false) :
   · left; exact ⟨.invalidState, by simp [h1], Or.inl h1⟩
   · by_cases h2 : pc.trxs.isEmpty = true
     · left; refine ⟨.invalidState, by simp [h1, h2], Or.inr (by simpa using h2)⟩
-    · right; simp at h1; simp [h1, h2, hb]
+    · right; simp at h1; simp [h1, h2, hb.rtp, hb.srtp]
 
-theorem createAnswer_cases (pc : Pc) (hb : pc.bindFails = false) :
+theorem createAnswer_cases (pc : Pc) (hb : EnvOk pc) :
     (∃ e, createAnswer pc = (pc, .err e)) ∨
     (pc.sig = .haveRemoteOffer ∧ (createAnswer pc).2 = .ok ∧
       createAnswer pc = ({ pc with trxs := (createAnswer pc).1.trxs, nextMid := (createAnswer pc).1.nextMid }, .ok)) := by
@@ -246,65 +303,7 @@ theorem createAnswer_cases (pc : Pc) (hb : pc.bindFails = false) :
       | some r =>
         cases ho : answerOrder pc.trxs r.sections [] [] with
         | none => left; exact ⟨.internal, by simp [h1, h2, ho]⟩
-        | some order => right; simp [h1, h2, ho, hb]
-
-/-- whatever the socket layer does, the tail never touches state, local description, flags -/
-theorem remoteTail_frame (pc4 : Pc) (d : Desc) :
-    (remoteTail pc4 d).1.sig = pc4.sig ∧ (remoteTail pc4 d).1.peerClosed = pc4.peerClosed ∧
-    (remoteTail pc4 d).1.mode = pc4.mode ∧ (remoteTail pc4 d).1.loc = pc4.loc ∧
-    (remoteTail pc4 d).1.dtlsStarted = pc4.dtlsStarted ∧ (remoteTail pc4 d).1.bindFails = pc4.bindFails := by
-  unfold remoteTail
-  split
-  · simp
-  · dsimp only
-    split <;> simp
-
-@[simp] theorem remoteTail_sig (pc4 : Pc) (d : Desc) : (remoteTail pc4 d).1.sig = pc4.sig := (remoteTail_frame pc4 d).1
-@[simp] theorem remoteTail_peerClosed (pc4 : Pc) (d : Desc) : (remoteTail pc4 d).1.peerClosed = pc4.peerClosed := (remoteTail_frame pc4 d).2.1
-@[simp] theorem remoteTail_mode (pc4 : Pc) (d : Desc) : (remoteTail pc4 d).1.mode = pc4.mode := (remoteTail_frame pc4 d).2.2.1
-@[simp] theorem remoteTail_loc (pc4 : Pc) (d : Desc) : (remoteTail pc4 d).1.loc = pc4.loc := (remoteTail_frame pc4 d).2.2.2.1
-@[simp] theorem remoteTail_dtlsStarted (pc4 : Pc) (d : Desc) : (remoteTail pc4 d).1.dtlsStarted = pc4.dtlsStarted := (remoteTail_frame pc4 d).2.2.2.2.1
-@[simp] theorem remoteTail_bindFails (pc4 : Pc) (d : Desc) : (remoteTail pc4 d).1.bindFails = pc4.bindFails := (remoteTail_frame pc4 d).2.2.2.2.2
-
-/-- general frame of `set_remote_description` (any environment, any outcome): the peer-closed flag,
-mode, local description, transport flag and environment are never touched, and the signaling state
-either stays or moves along the transition table. -/
-theorem setRemote_frame (pc : Pc) (d : Desc) :
-    (setRemote pc d).1.peerClosed = pc.peerClosed ∧ (setRemote pc d).1.mode = pc.mode ∧
-    (setRemote pc d).1.loc = pc.loc ∧ (setRemote pc d).1.dtlsStarted = pc.dtlsStarted ∧
-    (setRemote pc d).1.bindFails = pc.bindFails ∧
-    ((setRemote pc d).1.sig = pc.sig ∨ remoteTransition pc.sig d.ty = .ok (setRemote pc d).1.sig) := by
-  unfold setRemote
-  cases hv : validateType d.ty with
-  | some e' => simp
-  | none =>
-    simp only
-    cases hf : remoteFingerprint pc.mode d.fp with
-    | error e' => simp
-    | ok fp =>
-      simp only
-      by_cases hc : fpChanged pc fp = true
-      · simp [hc]
-      · simp only [hc]
-        rcases reinvitePhase_cases pc d (mediaChanged pc d) with ⟨e', hr⟩ | hr | ⟨hr, s', hs'⟩
-        · simp [hr]
-        · simp only [hr]
-          cases ht : remoteTransition pc.sig d.ty with
-          | error e' => simp
-          | ok s2 =>
-            simp only
-            by_cases hu : (pc.rem.isSome && !mediaChanged pc d) = true
-            · simp [hu]
-            · have hc2 : (pc.dtlsStarted && pc.remoteFp != fp) = false := by simpa [fpChanged] using hc
-              simp only [hu, fpChanged, hc2, Bool.false_eq_true, if_false]
-              simp
-        · simp only [hr, handleReinvite_sig, hs']
-          by_cases hu : (pc.rem.isSome && !mediaChanged pc d) = true
-          · simp [hu]
-          · have hc2 : (pc.dtlsStarted && pc.remoteFp != fp) = false := by simpa [fpChanged] using hc
-            simp only [hu, fpChanged, handleReinvite_dtlsStarted, handleReinvite_remoteFp, hc2, Bool.false_eq_true, if_false]
-            simp
-
+        | some order => right; simp [h1, h2, ho, hb.inline]
 
 /-- general frame of `create_offer` (any environment, any outcome) -/
 theorem createOffer_frame (pc : Pc) :
@@ -317,8 +316,10 @@ theorem createOffer_frame (pc : Pc) :
   · simp
   · split
     · simp
-    · dsimp only
-      split <;> simp
+    · split
+      · simp
+      · dsimp only
+        split <;> simp
 
 theorem createOffer_ok_stable (pc : Pc) (h : (createOffer pc).2 = .ok) : pc.sig = .stable := by
   unfold createOffer at h
@@ -351,65 +352,19 @@ theorem createAnswer_ok_haveRemoteOffer (pc : Pc) (h : (createAnswer pc).2 = .ok
   · simp [h1] at h
   · simpa using h1
 
-/-- the tail only ever fails with the socket layer's error -/
-theorem remoteTail_err_internal (pc4 : Pc) (d : Desc) (e : Err) (h : (remoteTail pc4 d).2 = .err e) :
-    e = .internal := by
-  unfold remoteTail at h
-  split at h
-  · simp at h; exact h.symm
-  · dsimp only at h
-    split at h
-    · simp at h; exact h.symm
-    · simp at h
-
-/-- in ANY environment: a `set_remote_description` error other than the socket layer's leaves
-everything but the mid counter untouched -/
-theorem setRemote_err_general (pc : Pc) (d : Desc) (e : Err) (h : (setRemote pc d).2 = .err e) :
-    ((setRemote pc d).1).sameButMid pc ∨ e = .internal := by
-  unfold setRemote at h ⊢
-  cases hv : validateType d.ty with
-  | some e' => left; simp only [hv] at h ⊢; exact Pc.sameButMid_refl pc
-  | none =>
-    simp only [hv] at h ⊢
-    cases hf : remoteFingerprint pc.mode d.fp with
-    | error e' => left; simp only [hf] at h ⊢; exact Pc.sameButMid_refl pc
-    | ok fp =>
-      simp only [hf] at h ⊢
-      by_cases hc : fpChanged pc fp = true
-      · left; simp only [hc, if_true] at h ⊢; exact Pc.sameButMid_refl pc
-      · simp only [hc] at h ⊢
-        rcases reinvitePhase_cases pc d (mediaChanged pc d) with ⟨e', hr⟩ | hr | ⟨hr, s', hs'⟩
-        · left; simp only [hr] at h ⊢; exact Pc.sameButMid_refl pc
-        · simp only [hr] at h ⊢
-          cases ht : remoteTransition pc.sig d.ty with
-          | error e' => left; simp only [ht] at h ⊢; exact ⟨rfl, rfl, rfl, rfl, rfl, rfl, rfl, rfl, rfl⟩
-          | ok s2 =>
-            simp only [ht] at h ⊢
-            by_cases hu : (pc.rem.isSome && !mediaChanged pc d) = true
-            · simp [hu] at h
-            · simp only [hu] at h
-              have hc2 : (pc.dtlsStarted && pc.remoteFp != fp) = false := by simpa [fpChanged] using hc
-              simp only [fpChanged, hc2, Bool.false_eq_true, if_false] at h
-              right; exact remoteTail_err_internal _ _ _ h
-        · simp only [hr, handleReinvite_sig, hs'] at h ⊢
-          by_cases hu : (pc.rem.isSome && !mediaChanged pc d) = true
-          · simp [hu] at h
-          · simp only [hu] at h
-            have hc2 : (pc.dtlsStarted && pc.remoteFp != fp) = false := by simpa [fpChanged] using hc
-            simp only [fpChanged, handleReinvite_dtlsStarted, handleReinvite_remoteFp, hc2, Bool.false_eq_true, if_false] at h
-            right; exact remoteTail_err_internal _ _ _ h
-
 theorem createOffer_err_general (pc : Pc) (e : Err) (h : (createOffer pc).2 = .err e) :
     createOffer pc = (pc, .err e) ∨ e = .internal := by
   unfold createOffer at h ⊢
   split at h
   · rename_i h1; simp at h; subst h; left; simp [h1]
   · split at h
-    · rename_i h1 h2; simp at h; subst h; left; simp [h1, h2]
-    · dsimp only at h
-      split at h
+    · simp at h; subst h; left; simp [*]
+    · split at h
       · simp at h; right; exact h.symm
-      · simp at h
+      · dsimp only at h
+        split at h
+        · simp at h; right; exact h.symm
+        · simp at h
 
 theorem createAnswer_err_general (pc : Pc) (e : Err) (h : (createAnswer pc).2 = .err e) :
     createAnswer pc = (pc, .err e) ∨ e = .internal := by
@@ -417,7 +372,7 @@ theorem createAnswer_err_general (pc : Pc) (e : Err) (h : (createAnswer pc).2 = 
   split at h
   · rename_i h1; simp at h; subst h; left; simp [h1]
   · split at h
-    · rename_i h1 h2; simp at h; subst h; left; simp [h1, h2]
+    · simp at h; subst h; left; simp [*]
     · split at h
       · simp at h; subst h; left; simp [*]
       · split at h
@@ -427,7 +382,6 @@ theorem createAnswer_err_general (pc : Pc) (e : Err) (h : (createAnswer pc).2 = 
             · simp at h
             · simp at h; right; exact h.symm
           · simp at h
-
 
 /-! ### a first offer synchronises the transceivers with its sections -/
 
@@ -560,6 +514,13 @@ theorem applyRemote_trxs_congr (a b : Pc) (d : Desc) (h : a.trxs = b.trxs) :
   unfold applyRemote
   cases d.ty <;> simp [h]
 
+theorem remoteTail_ok_trxs (X : Pc) (d : Desc) (s2 : SigState) (h : (remoteTail X d s2).2 = .ok) :
+    (remoteTail X d s2).1.trxs = (applyRemote X d).trxs := by
+  rcases remoteTail_cases X d s2 with hr | hr | hr
+  · rw [hr] at h; cases h
+  · rw [hr] at h; cases h
+  · rw [hr]
+
 /-- the transceivers after a successful FIRST `set_remote_description` (no remote description yet) are
 those `applyRemote` computes from the current transceivers -/
 theorem setRemote_first_trxs (pc : Pc) (d : Desc) (hrem : pc.rem = none) (h : (setRemote pc d).2 = .ok) :
@@ -577,13 +538,14 @@ theorem setRemote_first_trxs (pc : Pc) (d : Desc) (hrem : pc.rem = none) (h : (s
       · simp [hc] at h
       · have hr : reinvitePhase pc d (mediaChanged pc d) = (pc, none) := by simp [reinvitePhase, hrem]
         simp only [hc, hr] at h ⊢
+        unfold remoteAfterReinvite at h ⊢
         cases ht : remoteTransition pc.sig d.ty with
         | error e' => simp [ht] at h
         | ok s2 =>
           simp only [ht, hrem, Option.isSome_none, Bool.false_and, Bool.false_eq_true, if_false] at h ⊢
           have hc2 : (pc.dtlsStarted && pc.remoteFp != fp) = false := by simpa [fpChanged] using hc
           simp only [fpChanged, hc2, Bool.false_eq_true, if_false] at h ⊢
-          rw [remoteTail_ok _ _ h]
+          rw [remoteTail_ok_trxs _ _ _ h]
           exact applyRemote_trxs_congr _ _ _ rfl
 
 end RtcModel.Jsep
